@@ -61,6 +61,20 @@ def directive_sites(P, fns):
                 pv = pv or Prov(f)
                 a = pv.atoms(c["args"][2])
                 src = {(x[1], x[2]) for x in a if x[0] == "field" and x[2] == "directives"}
+                if not src:
+                    # the list arrives through a parameter: take the union over the callers' arguments (one level)
+                    pnames = {x[1] for x in a if x[0] == "param"}
+                    idxs = [i for i, p in enumerate(f.params) if p.get("k") == "Binding" and pv.params.get(p.get("local")) in pnames]
+                    for g in fns:
+                        gpv = None
+                        for cc in g.walk():
+                            if cc.get("k") == "Call" and call_name(cc) == f.path:
+                                gpv = gpv or Prov(g)
+                                for i in idxs:
+                                    if i < len(cc["args"]):
+                                        ga = gpv.atoms(cc["args"][i])
+                                        src |= {(x[1], x[2]) for x in ga if x[0] == "field" and x[2] == "directives"}
+                                        a = a | ga
                 loc_arg = c["args"][3]
                 lits = set(v for v in str_lits_in(loc_arg))
                 table = None
@@ -139,7 +153,7 @@ def r03b(P, R):
     R.check("R03-b", "spread-stack-push", ok, "the spread's name is pushed on the stack passed down", "the fragment name is not added to seen_fragments", loc=cfs.loc())
 
 
-def r03c(P, R):
+def r03c(P, R, only_locations=False):
     scope = [P.fns[p] for p in checker_scope(P) if p.startswith((CK, "<" + CK))]
     sites = directive_sites(P, scope)
     R.floor("R03-c", "check_directives call sites (operations)", len(sites), 5)
@@ -148,15 +162,18 @@ def r03c(P, R):
         srcs = {(a.replace(A, ""), fld) for a, fld in src if a.startswith(A)}
         known = [s for s in srcs if s in EXEC_LOCATIONS]
         key = "dirloc:%s" % short(f.path)
-        if len(known) != 1:
+        if not known:
             R.undecided("R03-c", key, "directives argument has provenance %s" % sorted(srcs), loc=f.loc())
             continue
-        covered.add(known[0])
-        want = EXEC_LOCATIONS[known[0]]
-        R.check("R03-c", "dirloc:%s.%s" % (known[0][0].split("::")[-1], known[0][1]), lits == want,
-                "location %s" % sorted(lits),
-                "%s checks `%s.directives` against location %s; the GraphQL spec location for that position is %s"
-                % (f.path, known[0][0].split("::")[-1], sorted(lits), sorted(want)), loc=f.loc())
+        for kn in sorted(known):
+            want = EXEC_LOCATIONS[kn]
+            if lits == want:
+                covered.add(kn)
+            R.check("R03-c", "dirloc:%s.%s%s" % (kn[0].split("::")[-1], kn[1], "" if len(known) == 1 else "@" + short(f.path)), lits == want,
+                    "location %s" % sorted(lits),
+                    "%s checks `%s.directives` against location %s; the GraphQL spec location for that position is %s"
+                    % (f.path, kn[0].split("::")[-1], sorted(lits), sorted(want)), loc=f.loc())
+        known = sorted(known)
         if table is not None:
             for k, v in table.items():
                 if k in OP_LOCATION:
@@ -169,6 +186,8 @@ def r03c(P, R):
             ok = ("param", "variables") in va or has_field(va, A + "operation::OperationDefinition", "variables_definition")
             R.check("R03-c", "dirvars:%s" % known[0][0].split("::")[-1], ok, "directive arguments are checked with the operation's variables in scope",
                     "%s checks directive arguments without the enclosing operation's variables" % f.path, loc=f.loc())
+    if only_locations:
+        return
     for pos, want in sorted(EXEC_LOCATIONS.items()):
         R.check("R03-c", "dircover:%s.%s" % (pos[0].split("::")[-1], pos[1]), pos in covered,
                 "directives at this position are validated",
